@@ -279,8 +279,11 @@ VisitOK(c, r) ==
      THEN \* C08 quiescence: everything of this heap was freed (by whichever threads) and the owner force-collected
           /\ GD("QuiescentClean", <<Cardinality(hb), n, Len(r.areas)>>, hb = {} => (n = 0 /\ Len(r.areas) = 0))
      ELSE IF c.stopat > 0
-     THEN \* the visitor returned false at its stopat-th block: the walk stops right there
-          /\ G("StopsWhenFalse", r.nvisited = Min(c.stopat, Cardinality(hb) + ng) /\ (Cardinality(hb) + ng >= c.stopat => ~r.res))
+     THEN \* the visitor returned false at its stopat-th block: the walk stops right there (no further call of the visitor)
+          /\ G("StopsWhenFalse", r.nvisited = Min(c.stopat, Cardinality(hb) + ng) /\ (Cardinality(hb) + ng >= c.stopat => ~r.res) /\ r.after = 0)
+     ELSE IF c.stopat < 0
+     THEN \* the visitor returned false at its |stopat|-th area announcement: no block of that area, no further area
+          /\ G("StopsWhenFalse", r.after = 0 /\ (r.nareas >= 0 - c.stopat => (~r.res /\ r.nareas = 0 - c.stopat)))
      ELSE /\ GD("WalkCount", <<n, Cardinality(hb), ng>>, n = Cardinality(hb) + ng)
           /\ G("WalkEveryLiveOnce", \A b \in hb : Cardinality({i \in 1..n : Encloses(r.blocks[i], b)}) = 1)
           /\ G("WalkOnlyLive", \A i \in 1..n : (ng > 0 /\ IsMember(r.blocks[i])) \/ Cardinality({b \in hb : Encloses(r.blocks[i], b)}) = 1)
@@ -302,7 +305,9 @@ VisitAbandonedOK(c, r) ==
   LET hb == {b \in LiveIds : live[b].h = 0}
       n == Len(r.blocks)
   IN IF c.stopat > 0
-     THEN G("StopsWhenFalse", r.nvisited = Min(c.stopat, Cardinality(hb)) /\ (Cardinality(hb) >= c.stopat => ~r.res))
+     THEN G("StopsWhenFalse", r.nvisited = Min(c.stopat, Cardinality(hb)) /\ (Cardinality(hb) >= c.stopat => ~r.res) /\ r.after = 0)
+     ELSE IF c.stopat < 0
+     THEN G("StopsWhenFalse", r.after = 0 /\ (r.nareas >= 0 - c.stopat => (~r.res /\ r.nareas = 0 - c.stopat)))
      ELSE /\ GD("WalkCount", <<n, Cardinality(hb)>>, n = Cardinality(hb))
           /\ G("WalkEveryLiveOnce", \A b \in hb : Cardinality({i \in 1..n : Encloses(r.blocks[i], b)}) = 1)
           /\ G("WalkOnlyLive", \A i \in 1..n : Cardinality({b \in hb : Encloses(r.blocks[i], b)}) = 1)
